@@ -171,4 +171,4 @@ def _adt_has_field(ctx, adt, field):
 
 
 def run(ctx):
-    engine.run_rules(ctx, [r18_1, r18_1b, r18_2, dt.r03_4, dt.r03_6, dt.r03_5])
+    engine.run_rules(ctx, [r18_1, r18_1b, r18_2, dt.r03_4, dt.r03_6, dt.r03_5, dt.r03_8, dt.r02_7])
